@@ -225,7 +225,7 @@ class Fn:
                         # (the result of checked arithmetic, of a call ...)
                         root_is_binding = pl["local"] > self.arg_count and self.locals[pl["local"]]["user"] and not self.locals[pl["local"]]["mut"]
                         # ... or a field of an immutable binding (`let size = eof.file_size;`)
-                        res = bool((root_is_param and pure_fields and pl["proj"]) or (root_is_temp and pure_fields) or (root_is_binding and pure_fields and pl["proj"] and rv["k"] == "use"))
+                        res = bool((root_is_param and pure_fields and pl["proj"]) or (root_is_temp and pure_fields) or (root_is_binding and pure_fields and pl["proj"] and (rv["k"] == "use" or not rv.get("mutbl"))))
                     elif rv["k"] == "use" and rv["op"].get("k") == "const":
                         res = True
         self._new_let[local] = res
